@@ -11,7 +11,7 @@ From Clemens.C01Att Require Import FideFacts.
 From Clemens.C03Recon Require Import FideText Recon.
 From ClemensGen Require Import GoConsts.
 From Clemens.EngineE2E Require Import EngBase EngDispatch EngState EngSearch EngE2E EngText EngExamples EngFinal.
-From WipGame Require Import GameInv GameAfter GameWhole GameMate GameExDefs.
+From Clemens.GameThm Require Import GameInv GameAfter GameWhole GameMate GameExDefs.
 Import ListNotations.
 Open Scope list_scope.
 Open Scope string_scope.
